@@ -12,7 +12,8 @@
 From AK Require Import Base.Prelude Bytes.Text Bytes.FabHeader Bytes.BinFile
   Reader.Select Reader.BoxRead Reader.Level Reader.ReadSpec
   Writers.Colander Writers.ColanderSpec Writers.CombineProofs Writers.Chef Writers.ChefProofs Writers.Pipeline
-  Plotfile.TextHeader Plotfile.HeaderSpec Taste.Taste Plotfile.Abstract Writers.ColanderToolProofs Writers.ColanderPipeline Writers.Combine Writers.CombineSpec Writers.CombineToolProofs Writers.CombinePipeline Writers.ChefToolProofs Writers.ChefPipeline Writers.FullPipeline Writers.ReadBack Reader.GetItemProofs Props.C05 Props.C06 Props.C11.
+  Plotfile.TextHeader Plotfile.HeaderSpec Taste.Taste Plotfile.Abstract Writers.ColanderToolProofs Writers.ColanderPipeline Writers.Combine Writers.CombineSpec Writers.CombineToolProofs Writers.CombinePipeline Writers.ChefToolProofs Writers.ChefPipeline Writers.FullPipeline Writers.ReadBack Reader.GetItemProofs Props.C05 Props.C06 Props.C11
+  Writers.ChkHeader Writers.Chk2pltTool Writers.Chk2pltToolProofs Writers.Chk2pltPipeline.
 
 (* Any finite sequence of operations, each of which preserves well-formedness
    and refines its pure counterpart, ends in a well-formed state whose
@@ -196,3 +197,23 @@ Proof. vm_compute. reflexivity. Qed.
 
 Print Assumptions C14_colander_chain.
 Print Assumptions C14_colander_outputs_accepted.
+
+(* chk2plt AS THE SOURCE of a chain: for every convertible abstract checkpoint
+   (Chk2pltPipeline.convertible: the hypotheses of C17_tool and
+   C17_tool_output_good) the directory chk2plt writes is a valid input of every
+   chain of colander / combine / chef runs whose pure counterpart is defined on
+   the pure conversion conv_pf c: the chain succeeds, ends on the image of the
+   composed pure operations, and every intermediate directory is the image of a
+   good plotfile. *)
+Theorem C14_chain_from_checkpoint : forall whole to_int frepr dx_row bounds species do_gradp do_ir floored y_start nspecies
+    n_state n_gradp n_ir c ops pf',
+  convertible whole to_int frepr dx_row bounds species do_gradp do_ir floored y_start nspecies n_state n_gradp n_ir c ->
+  Forall fop_ok ops -> fpure ops (conv_pf frepr dx_row bounds species do_gradp do_ir c) = Some pf' ->
+  exists d, chk2plt_tool whole to_int frepr dx_row bounds species do_gradp do_ir floored y_start nspecies n_state n_gradp n_ir (achk_disk c) = Some d /\
+            run pdisk fop fop_tool ops d = Some (pf_disk pf') /\ good pf' /\
+            Forall (fun d' => exists p, good p /\ d' = pf_disk p) (states pdisk fop fop_tool ops d).
+Proof.
+  intros whole to_int frepr dx_row bounds species dg di fl ys ns n1 n2 n3 c ops pf' Hc Hok Hp.
+  exact (chain_from_checkpoint whole to_int frepr dx_row bounds species dg di fl ys ns n1 n2 n3 c ops pf' Hc Hok Hp).
+Qed.
+Print Assumptions C14_chain_from_checkpoint.
